@@ -120,7 +120,7 @@ func (p *SyncedPool) GetUnderlying(name string) (kvdb.Store, error) {
 	}
 
 	wrapper.Flushable = p.getDB(name)
-	db, err := wrapper.Flushable.initUnderlyingDb()
+	db, err := wrapper.Flushable.InitUnderlyingDb() // takes the store's lock: readers of the store may be running
 	if err != nil {
 		return nil, err
 	}
@@ -171,7 +171,9 @@ func (p *SyncedPool) flush(id []byte) error {
 		if err != nil {
 			return err
 		}
+		w.Flushable.lock.RLock()
 		db := w.Flushable.underlying
+		w.Flushable.lock.RUnlock()
 		if db == nil {
 			continue
 		}
